@@ -317,6 +317,33 @@ def _eq_contract(a, b, what, out, expect_equal):
             out.append(Fail('%s-hash-raises:%s' % (what, type(exc).__name__), str(exc)[:200]))
 
 
+def _use(fm):
+    from flamapy.metamodels.fm_metamodel import operations as ops
+    from flamapy.metamodels.fm_metamodel.transformations import SPLOTWriter
+    from flamapy.metamodels.fm_metamodel.transformations.pl_writer import PLWriter
+    from .c19 import OPS
+    for name in OPS:
+        try:
+            op = getattr(ops, name)()
+            if name == 'FMFeatureAncestors':
+                op.set_feature(fm.get_features()[-1])
+            op.execute(fm).get_result()
+        except Exception:  # noqa: BLE001   (a failing operation is C13-C17's subject)
+            pass
+    for meth in ('get_simple_constraints', 'get_complex_constraints', 'get_pseudocomplex_constraints', 'get_strictcomplex_constraints',
+                 'get_requires_constraints', 'get_excludes_constraints', 'get_mandatory_features', 'get_optional_features'):
+        try:
+            getattr(fm, meth)()
+        except Exception:  # noqa: BLE001
+            pass
+    for W, ext in ((SPLOTWriter, 'sxfm'), (PLWriter, 'exp')):
+        try:
+            W(engine.tmppath('c20.' + ext), fm).transform()
+        except Exception:  # noqa: BLE001
+            pass
+    engine.tick(len(OPS) + 10)
+
+
 def _elements(fm):
     feats = {f.name: f for f in fm.get_features()}
     rels = {(r.parent.name, frozenset(c.name for c in r.children)): r for r in fm.get_relations()}
@@ -369,6 +396,25 @@ def check(case):
                 f.detail = {'copy': sh.model_str(pm_), 'info': f.detail}
             out.extend(sub)
             break
+    # the model is used (every read-only operation, the constraint-kind listings, two exports) and is
+    # then still equal to, and hashes like, an independently built permuted copy
+    if not out:
+        _use(fm)
+        sub = []
+        for pm_ in copies[:3]:
+            fm2 = bd.build(pm_)
+            _eq_contract(fm, fm2, 'model', sub, True)
+            f2, r2, c2 = _elements(fm2)
+            for k, c in ctcs.items():
+                _eq_contract(c, c2[k], 'constraint', sub, True)
+            for k, r in rels.items():
+                if k in r2:
+                    _eq_contract(r, r2[k], 'relation', sub, True)
+            if sub:
+                break
+        for f in sub:
+            f.clause = f.clause + ':after-the-model-was-analysed'
+        out.extend(sub)
     seen_clauses = set(f.clause for f in out)
     for (ekind, em) in edits(model):
         if em == model:
